@@ -337,6 +337,15 @@ func (c *Ctx) solveOne(i int, o *Obligation, opts solveOpts) {
 		}
 		res, out, ms := runSolver(solvers[0], file, short)
 		record(solvers[0].name, res, out, ms)
+		if !(res == "unsat" || res == "sat") {
+			// stage 1b: a universally quantified goal whose bound variable ranges up to a loop counter (`k <= rangeindex`)
+			// usually needs the case split "the new element / the old ones"; the skolemised goal carries the bound as
+			// `(assert (<= sk_k T))`: prove the goal once under sk_k = T and once under sk_k < T (exhaustive, hence sound)
+			if r2, ms2, ok := c.trySplit(file, short+3); ok {
+				record("z3-new/split", r2, "", ms2)
+				res = r2
+			}
+		}
 		if !(res == "unsat" || res == "sat") || opts.all {
 			// stage 2: race all solvers with the full budget
 			type ans struct {
@@ -423,6 +432,60 @@ func (c *Ctx) solveOne(i int, o *Obligation, opts solveOpts) {
 	if o.Result == "unsat" && !o.ExpectSat || o.ExpectSat && (o.Result == "sat" || o.Result == "unknown" || o.Result == "timeout") {
 		os.Remove(file)
 	}
+}
+
+// trySplit: see stage 1b of solveOne. ok=false when the query has no skolem bound to split on or a case is undecided.
+func (c *Ctx) trySplit(file string, secs int) (res string, ms int64, ok bool) {
+	b, err := os.ReadFile(file)
+	if err != nil {
+		return "", 0, false
+	}
+	text := string(b)
+	const pre = "(assert (<= sk_"
+	i := strings.LastIndex(text, pre)
+	if i < 0 {
+		return "", 0, false
+	}
+	line := text[i:]
+	if j := strings.IndexByte(line, '\n'); j >= 0 {
+		line = line[:j]
+	}
+	// line = (assert (<= sk_NAME TERM))
+	body := strings.TrimSuffix(strings.TrimPrefix(line, "(assert (<= "), "))")
+	sp := strings.IndexByte(body, ' ')
+	if sp < 0 {
+		return "", 0, false
+	}
+	sk, term := body[:sp], strings.TrimSpace(body[sp+1:])
+	depth := 0
+	for _, ch := range term {
+		if ch == '(' {
+			depth++
+		} else if ch == ')' {
+			depth--
+		}
+		if depth < 0 {
+			return "", 0, false
+		}
+	}
+	if depth != 0 || term == "" {
+		return "", 0, false
+	}
+	k := strings.LastIndex(text, "(check-sat)")
+	if k < 0 {
+		return "", 0, false
+	}
+	for n, cs := range []string{fmt.Sprintf("(assert (= %s %s))", sk, term), fmt.Sprintf("(assert (< %s %s))", sk, term)} {
+		f2 := fmt.Sprintf("%s.split%d.smt2", file, n)
+		os.WriteFile(f2, []byte(text[:k]+cs+"\n"+text[k:]), 0o644)
+		r, _, m := runSolver(solvers[0], f2, secs)
+		os.Remove(f2)
+		ms += m
+		if r != "unsat" {
+			return "", ms, false
+		}
+	}
+	return "unsat", ms, true
 }
 
 func firstLines(s string, n int) string {
